@@ -47,6 +47,7 @@ type Summary struct {
 	NotVoted  int64               `json:"notvoted"`
 	ByzSent   int                 `json:"byzsent"`
 	Faults    []string            `json:"faults"`
+	Cut       []string            `json:"cut"`
 	Events    int                 `json:"events"`
 }
 
@@ -62,6 +63,14 @@ func scenarioConfig(sc string, seed int64) Config {
 	case "c":
 		c.N = 4
 		c.Deadline = 14 * time.Second
+	case "x":
+		// one member is cut off for good; the others (all of them are needed: n=3) vote it out
+		c.N = 3
+		if seed%2 == 0 {
+			c.N = 4 // two of four cut off
+		}
+		c.Target = 5
+		c.Deadline = 20 * time.Second
 	case "e":
 		c.N = 4
 		c.Target = 7
@@ -104,6 +113,7 @@ func runOne(cfg Config) (*Summary, error) {
 
 	var healed = true
 	var victim = -1
+	var cutoff []int
 	switch cfg.Scenario {
 	case "b":
 		// cut the victim's gossip layer once every node has saved height 2; heal it when the others
@@ -162,6 +172,39 @@ func runOne(cfg Config) (*Summary, error) {
 			healed = true
 			fmu.Unlock()
 		}()
+	case "x":
+		nt.fullCut.Store(true)
+		nvict := cfg.N - 2
+		perm := rng.Perm(len(honest))
+		var victims []int
+		for k := 0; k < nvict; k++ {
+			victims = append(victims, honest[perm[k]])
+		}
+		cutoff = victims
+		nt.wg.Add(1)
+		go func() {
+			defer nt.wg.Done()
+			for {
+				minh := int64(1 << 40)
+				for _, n := range nt.nodes {
+					if n != nil && n.chain.height().Int64() < minh {
+						minh = n.chain.height().Int64()
+					}
+				}
+				if minh >= 2 {
+					break
+				}
+				select {
+				case <-nt.ctx.Done():
+					return
+				case <-time.After(20 * time.Millisecond):
+				}
+			}
+			for _, v := range victims {
+				nt.isolated[v].Store(true)
+				note(fmt.Sprintf("cut off %s for good", nt.name(v)))
+			}
+		}()
 	case "e":
 		// one honest node's block production diverges at two heights (C10 broken at that node): it must
 		// not save its own block, but go through SYNCING and take the agreed one (C11)
@@ -216,7 +259,13 @@ loop:
 		case <-tick.C:
 			ok := true
 			for _, n := range nt.nodes {
-				if n != nil && n.chain.height().Int64() < cfg.Target {
+				iscut := false
+				for _, v := range cutoff {
+					if n != nil && n.idx == v {
+						iscut = true
+					}
+				}
+				if n != nil && !iscut && n.chain.height().Int64() < cfg.Target {
 					ok = false
 				}
 			}
@@ -274,6 +323,9 @@ loop:
 	nt.log.mu.Unlock()
 	if victim >= 0 {
 		s.Final["victim"] = nt.name(victim)
+	}
+	for _, v := range cutoff {
+		s.Cut = append(s.Cut, nt.name(v))
 	}
 	var head Ev
 	b, _ := json.Marshal(s)
